@@ -100,6 +100,7 @@ typedef struct {
     m_evt_ps_t msg;
     m_ps_flags flags;
     ev_src_t *sub;
+    void **autofree_data;                   // M_PS_AUTOFREE: ref-counted holder of user data, shared by every copy of the message
 } ps_priv_t;
 
 extern const char *src_names[];
